@@ -218,6 +218,24 @@ func checkC05(c C05Case) Verdict {
 	if hooksEnabled && o.steps > int64(stepsPerByte*len(c.Input)+stepsBase) {
 		return bad(true, "parser took %d steps for %d bytes (bound %d): not proportional to the input: %s", o.steps, len(c.Input), stepsPerByte*len(c.Input)+stepsBase, c.Show)
 	}
+	// parsing is a function of the input: a second parse of the same bytes (after whatever the first
+	// one left behind in the process) returns the same tree or the same error
+	var o2 parseOutcome
+	if !finishes(watchdogLimit(), func() { o2 = doParse(c) }) {
+		hangExit("C05", c, fmt.Sprintf("second parse.%s of %s", c.Kind, c.Show))
+	}
+	if o2.panicked != nil {
+		return bad(true, "parser panicked on the second parse of %s input %s: %v", c.Kind, c.Show, o2.panicked)
+	}
+	if (o.err == nil) != (o2.err == nil) || o.err != nil && o.err.Error() != o2.err.Error() {
+		return bad(true, "two parses of the same %s input %s disagree: first %v, then %v", c.Kind, c.Show, o.err, o2.err)
+	}
+	if o.err == nil && !o.treeNil && !o2.treeNil {
+		s1, s2 := "", ""
+		if catch(func() { s1, s2 = o.tree.String(), o2.tree.String() }) == nil && s1 != s2 {
+			return bad(true, "two parses of the same %s input %s give different trees:\n %s\n %s", c.Kind, c.Show, trunc(s1, 300), trunc(s2, 300))
+		}
+	}
 	outcome := "accepted"
 	if o.err != nil {
 		outcome = "rejected"
